@@ -2,6 +2,7 @@ import QuicModel.Driver
 import QuicModel.Recovery.Loss
 import QuicModel.Recovery.Rtt
 import QuicModel.Recovery.Pto
+import QuicModel.Recovery.Manager
 namespace Quic.Drivers.Recovery
 open Quic Quic.Recovery
 
@@ -150,6 +151,107 @@ def ptoStep (p : Pto.Pto) (t : List String) : Pto.Pto × String :=
 
 def pto : Component := { name := "pto", σ := Pto.Pto, init := Pto.init, step := ptoStep }
 
-def components : List Component := [loss, rtt, pto]
+/-! ### `pcong`  (`persistent_congestion::Calculator`)
+  `new <first_rtt_sample_us|none> <path_id>` | `lost <pn> <time_sent_us> <path_id> <mtu_probing> <ack_eliciting>`
+  -> `ok <persistent_congestion_duration_ns>` -/
+def pcongStep (c : PersistentCongestion.Calculator) (t : List String) : PersistentCongestion.Calculator × String :=
+  match t with
+  | ["new", a, b] =>
+    match (if a == "none" then some none else (a.toNat?).map some), b.toNat? with
+    | some first, some p =>
+      if (match first with | some v => decide (1 ≤ v ∧ v < DOM) | none => true) && decide (p < 256) then
+        let c' := PersistentCongestion.Calculator.new first p
+        (c', s!"ok {c'.maxDuration}")
+      else (c, "bad-op")
+    | _, _ => (c, "bad-op")
+  | ["lost", a, b, p, d, e] =>
+    match nats? [a, b, p], bool? d, bool? e with
+    | some [pn, sent, path], some mtu, some ae =>
+      if pn < DOM ∧ 1 ≤ sent ∧ sent < DOM ∧ path < 256 then
+        let c' := c.onLostPacket pn sent path mtu ae
+        (c', s!"ok {c'.maxDuration}")
+      else (c, "bad-op")
+    | _, _, _ => (c, "bad-op")
+  | _ => (c, "bad-op")
+
+def pcong : Component :=
+  { name := "pcong", σ := PersistentCongestion.Calculator, init := PersistentCongestion.Calculator.new none 0, step := pcongStep }
+
+/-! ### `recovery-manager`  (the model of `s2n-quic-transport`'s `recovery::Manager`; for the
+  in-crate hook / trace ties of the integrator)
+  `init <space 0|1|2>` (first op) | `send <pn> <bytes> <cc> <ack_eliciting> <now_us> <path> <mtu_probe>` |
+  `burst <now_us>` | `ack <lo-hi,lo-hi,…> <ack_delay_ns> <now_us> <rx_path>` | `timeout <now_us>` |
+  `discard <path>` | `retry <path>` | `confirmed` | `pathflags <path> <peer_validated> <at_amplification_limit>` |
+  `mad <path> <ms>` | `active <path>`
+  -> `ok acked=<pns> lost=<pns> discarded=<pns> bif=<b0>,<b1>,<b2>,<b3> la=<n|none> losstimer=<us|none> pto=<us|none>
+         tx=<n> backoff=<active path> srtt=<active path, ns> tracked=<n> uf=<0|1> panic=<0|1>`
+     | `err protocol-violation` | `bad-op` -/
+def range? (s : String) : Option (Nat × Nat) :=
+  match s.splitOn "-" with
+  | [a, b] => match a.toNat?, b.toNat? with
+    | some x, some y => some (x, y)
+    | _, _ => none
+  | [a] => match a.toNat? with
+    | some x => some (x, x)
+    | none => none
+  | _ => none
+
+def ranges? (s : String) : Option (List (Nat × Nat)) :=
+  (s.splitOn ",").foldr (fun x acc => match range? x, acc with | some r, some l => some (r :: l) | _, _ => none) (some [])
+
+def mgrShow (m : Manager.Manager) (o : Manager.Out) : String :=
+  let act := m.paths m.activePath
+  s!"ok acked={natList o.acked} lost={natList o.lost} discarded={natList o.discarded} " ++
+  s!"bif={(m.paths 0).bytesInFlight},{(m.paths 1).bytesInFlight},{(m.paths 2).bytesInFlight},{(m.paths 3).bytesInFlight} " ++
+  s!"la={optNat m.largestAcked} losstimer={optNat m.lossTimer} pto={optNat m.pto.timer} tx={Pto.transmissions m.pto} " ++
+  s!"backoff={act.ptoBackoff} srtt={act.rtt.smoothedRtt} tracked={m.sent.length} uf={boolStr m.underflow} panic={boolStr m.panicked}"
+
+def mgrOp? (t : List String) : Option Manager.Op :=
+  match t with
+  | ["send", a, b, c, d, e, f, g] =>
+    match nats? [a, b, e, f], bool? c, bool? d, bool? g with
+    | some [pn, bytes, now, path], some cc, some ae, some mtu =>
+      if pn < DOM ∧ now < DOM ∧ 1 ≤ now ∧ path < 4 then some (.send pn bytes cc ae now path mtu) else none
+    | _, _, _, _ => none
+  | ["burst", a] => match a.toNat? with | some now => if 1 ≤ now ∧ now < DOM then some (.burstComplete now) else none | none => none
+  | ["ack", r, a, b, c] =>
+    match ranges? r, nats? [a, b, c] with
+    | some rs, some [d, now, path] =>
+      if d < DOM ∧ 1 ≤ now ∧ now < DOM ∧ path < 4 ∧ rs.all (fun x => decide (x.2 < DOM)) then some (.ackFrame rs d now path) else none
+    | _, _ => none
+  | ["timeout", a] => match a.toNat? with | some now => if 1 ≤ now ∧ now < DOM then some (.timeout now) else none | none => none
+  | ["discard", a] => match a.toNat? with | some p => if p < 4 then some (.discardSpace p) else none | none => none
+  | ["retry", a] => match a.toNat? with | some p => if p < 4 then some (.retry p) else none | none => none
+  | ["confirmed"] => some .setConfirmed
+  | ["pathflags", a, b, c] =>
+    match a.toNat?, bool? b, bool? c with
+    | some p, some pv, some amp => if p < 4 then some (.setPathFlags p pv amp) else none
+    | _, _, _ => none
+  | ["mad", a, b] =>
+    match nats? [a, b] with
+    | some [p, ms] => if p < 4 ∧ ms < 16384 then some (.setMaxAckDelay p ms) else none
+    | _ => none
+  | ["active", a] => match a.toNat? with | some p => if p < 4 then some (.setActivePath p) else none | none => none
+  | _ => none
+
+def mgrStep (m : Manager.Manager) (t : List String) : Manager.Manager × String :=
+  match t with
+  | ["init", s] =>
+    match space? s with
+    | some sp => (Manager.init sp, mgrShow (Manager.init sp) {})
+    | none => (m, "bad-op")
+  | _ =>
+    match mgrOp? t with
+    | none => (m, "bad-op")
+    | some op =>
+      match Manager.step m op with
+      | (m', o, .ok) => (m', mgrShow m' o)
+      | (_, _, .badOp) => (m, "bad-op")
+      | (m', _, .protocolViolation) => (m', "err protocol-violation")
+
+def recoveryManager : Component :=
+  { name := "recovery-manager", σ := Manager.Manager, init := Manager.init .initial, step := mgrStep }
+
+def components : List Component := [loss, rtt, pto, pcong, recoveryManager]
 
 end Quic.Drivers.Recovery
